@@ -612,9 +612,9 @@ class ProgSemGen:
             op = r.choice(["+", "-", "*", "&", "|", "^", "<", ">", "<=", "==", "!=", "&&", "||", "<<", ">>", "/", "%"])
             rhs = self.ex(d - 1)
             if op in ("/", "%"):
-                rhs = "(" + rhs + " | 1UL)"                # unsigned and non-zero: no SIGFPE (x/0, INT_MIN/-1)
+                rhs = "((" + rhs + ") | 1UL)"              # unsigned and non-zero: no SIGFPE (x/0, INT_MIN/-1)
             if op in ("<<", ">>"):
-                rhs = "(" + rhs + " & 7)"
+                rhs = "((" + rhs + ") & 7)"
             return self.ex(d - 1) + " " + op + " " + rhs
         if k < 0.62:
             return r.choice(["-", "!", "~", "+"]) + self.ex(d - 1) if r.random() < 0.5 else r.choice(["-", "+"]) + " " + r.choice(["-", "+"]) + self.ex(d - 1)
